@@ -84,8 +84,12 @@ class CWLDependencyListener(ECMAScriptListener):
     ) -> None:
         if self._get_name(ctx.singleExpression()) in self.names.global_names():
             for expr in ctx.expressionSequence().singleExpression():
-                if dep := self._get_index(expr.literal()).strip("'\""):
-                    self.deps.add(dep)
+                # Only string literals name a field statically: computed and numeric indexes are skipped
+                if isinstance(expr, ECMAScriptParser.LiteralExpressionContext) and (
+                    index := self._get_index(expr.literal())
+                ):
+                    if dep := index.strip("'\""):
+                        self.deps.add(dep)
 
 
 class DependencyResolver:
